@@ -1044,6 +1044,7 @@ package gmars
 //@   modifies nothing
 //@ trusted expandExpressions
 //@   modifies nothing
+//@   ensures forall k: Str :: has(result.0, k) ==> allocated(arr(result.0[k]))
 // expandValue resolves one symbol after every symbol it depends on; a symbol resolved once stays resolved. That all
 // dependencies are resolved when the value is substituted -- whatever order the caller's map iteration chose -- is
 // what makes the result independent of that order (C14).
@@ -1248,8 +1249,11 @@ package gmars
 //@     invariant [C05] state != 0 ==> openFrom(l, old(sent(l.tokens))) && lexState(state) && lexPre(l, state)
 //@     invariant [C05] state == 0 ==> endedFrom(l, old(sent(l.tokens)))
 //@     decreases [C05] ite(state == 0, 0, 1 + lexMu(l, state))
+// (assumed: the reader returns every token up to and including the first terminal one)
 //@ trusted (*lexer).Tokens
+//@   requires l != nil
 //@   modifies nothing
+//@   ensures result.1 == nil ==> len(result.0) >= 1
 //@ trusted newBufTokenReader
 //@   modifies nothing
 //@   ensures fresh(result) && result.tokens == tokens
@@ -1259,9 +1263,17 @@ package gmars
 //@ trusted ScanInput
 //@   modifies nothing
 //@   ensures result.2 == nil ==> result.0 == symsOf(as(lex, bufTokenReader).tokens)
-//@ trusted ForExpand
+//@ trusted newForExpander
+//@   modifies nothing
+//@   ensures fresh(result)
+//@ trusted (*forExpander).Tokens
+//@   requires f != nil
+//@   modifies nothing
+//@ func ForExpand
+//@   panics [C05][C08]
 //@   requires [C08] symbols == symsOf(as(lex, bufTokenReader).tokens)
 //@   modifies nothing
+//@   ensures [C05] result.1 != nil ==> len(result.0) == 0
 // (assumed: a parser over a fresh token reader starts in a state satisfying its invariant)
 //@ trusted newParser
 //@   modifies nothing
@@ -1852,10 +1864,11 @@ package gmars
 //@ extern strings.NewReader
 //@   modifies nothing
 //@   ensures result != nil
-//@ trusted LexInput
+//@ func LexInput
+//@   panics [C05]
 //@   requires r != nil
 //@   modifies nothing
-//@   ensures result.1 == nil ==> len(result.0) >= 1
+//@   ensures [C05] result.1 == nil ==> len(result.0) >= 1
 //@ func (*compiler).evaluateAssertion
 //@   panics [C05][C07]
 //@   requires c != nil && c.m >= 1 && c.m <= 4294967296
@@ -1864,9 +1877,20 @@ package gmars
 // only if it does
 //@   ensures [C07] result == nil ==> exprVal(exprTokens) != 0
 //@   ensures [C07] result != nil ==> exprVal == 0
-//@ trusted ExpandAndEvaluate
+// ExpandAndEvaluate (the FOR count): every symbol token is replaced by its resolved value, every other token is
+// copied, and the result is what evaluateExpression makes of that text
+//@ func ExpandAndEvaluate
+//@   panics [C05][C07][C08]
 //@   modifies nothing
-//@   ensures result.1 == nil ==> 0 - 2147483648 <= result.0 && result.0 <= 2147483647
+//@   ensures [C07][C08] result.1 == nil ==> 0 - 2147483648 <= result.0 && result.0 <= 2147483647
+//@   ensures [C07][C08] err == nil ==> result.0 == exprVal(local(expanded))
+//@   loop 1
+//@     invariant 0 - 1 <= rangeindex && rangeindex < len(expr) && fresh(arr(expanded))
+//@     invariant forall k: Str :: has(resolved, k) ==> allocated(arr(resolved[k])) && arr(resolved[k]) != arr(expanded)
+//@     iteration [C07][C08] tok.typ == tokText && has(resolved, tok.val) ==> len(expanded) == iter(len(expanded)) + len(resolved[tok.val])
+//@     iteration [C07][C08] tok.typ == tokText && has(resolved, tok.val) ==> (forall j :: 0 <= j && j < len(resolved[tok.val]) ==> expanded[iter(len(expanded)) + j] == resolved[tok.val][j])
+//@     iteration [C07][C08] !(tok.typ == tokText && has(resolved, tok.val)) ==> len(expanded) == iter(len(expanded)) + 1 && expanded[len(expanded) - 1] == tok
+//@     decreases len(expr) - rangeindex
 //@ func forFor
 //@   panics [C05][C08]
 //@   requires forOK(f)
